@@ -32,6 +32,9 @@ OnRec(e) ==
            [s EXCEPT !.viol = Add(Add(Add(s.viol, e.fd_ok, "AssembledJacobianMatchesFiniteDifferences"), e.pattern_stable, "SparsityPatternStable"),
                                   e.modes_agree, "AccumulationModesGiveSameJacobian") \cup
                                   (IF e.mass_current THEN {} ELSE {"MassMatrixCarriesCurrentTimeConstants"})]
+      [] e.e = "modeljac" ->      \* generated Jacobian functions of one model against difference quotients of its declared equations
+           [s EXCEPT !.viol = Add(Add(Add(s.viol, e.entries_ok, "GeneratedJacobianIsDerivativeOfDeclaredEquation"),
+                                      e.none_missing, "NoJacobianEntryMissing"), e.constants_on_diagonal, "ConstantEntriesOnDiagonal")]
       [] OTHER -> s
 Consume ==
     /\ l <= Len(Ev(tid))
